@@ -89,12 +89,12 @@ macro_rules! impl_binary_exponent {
             impl BinaryExponent for $i {
                 #[must_use]
                 fn raise(&self, by: usize) -> Self {
-                    *self + (by as $i)
+                    self.saturating_add(by as $i)
                 }
 
                 #[must_use]
                 fn lower(&self, by: usize) -> Self {
-                    *self - (by as $i)
+                    self.saturating_sub(by as $i)
                 }
 
                 #[must_use]
@@ -120,7 +120,7 @@ macro_rules! impl_binary_exponent {
 
             impl BinaryExponentMath for $i {
                 fn abs(self) -> Self {
-                    <$i>::abs(self)
+                    <$i>::saturating_abs(self)
                 }
 
                 fn pow2(e: u32) -> Self {
